@@ -49,7 +49,7 @@ Theorem C02_unmatched_non_silent : forall s r mcl w og, outgoing s = Some og ->
   dispatch_message s r mcl w = (s, []).
 Proof. exact unmatched_non_silent_lemma. Qed.
 Print Assumptions C02_unmatched_non_silent.
-Theorem C02_unmatched_ack_only_ends_exchange : forall s r mcl w og, outgoing s = Some og -> refuses s r = false ->
+Theorem C02_unmatched_ack_only_ends_exchange : forall s r mcl w og, outgoing s = Some og ->
   is_response (w_code w) = true -> w_mtype w = ACK -> matching og (w_token w) r = None ->
   dispatch_message s r mcl w = fst (_remove_exchange s r w).
 Proof. exact unmatched_ack_lemma. Qed.
